@@ -76,12 +76,34 @@ class KeysPredicate(Unit):
         try:
             P = z3.And(*[tr(e) for e in ifs]) if ifs else z3.BoolVal(True)
         except ValueError as ex:
-            yield "C18", "keys-filter-atoms-recognised", Undecided(str(ex))
+            # the filter is written in a form this translation does not know (e.g. it calls a helper): its truth table
+            # over the eight abstraction classes (callable? / dunder name? / bound method?) is taken from the real code
+            yield from self._truth_table(str(ex))
             return
         self._P = P
         yield "C18", "every-user-entry-is-listed (name without leading __, value neither callable nor bound method)", V.SBool(z3.Implies(z3.And(z3.Not(c), z3.Not(d), z3.Not(m)), P))
         yield "C18", "names-added-by-class-creation-are-not-listed (__module__, __dict__, __weakref__, __doc__)", V.SBool(z3.Implies(z3.And(d, z3.Not(m), z3.Not(c)), z3.Not(P)))
         yield "C18", "callable-non-method-values-are-not-listed", V.SBool(z3.Implies(z3.And(c, z3.Not(m)), z3.Not(P)))
+
+    def _truth_table(self, why):
+        E = enummod().Enum
+
+        class _Obj:
+            def meth(self):
+                return 1
+
+        bound = _Obj().meth
+        samples = {  # (callable, dunder name, bound method) -> (name, value)
+            (False, False, False): ("plain", 5), (False, True, False): ("__dunder_plain", 5),
+            (True, False, False): ("fn", len), (True, True, False): ("__dunder_fn", len),
+            (True, False, True): ("bm", bound), (True, True, True): ("__dunder_bm", bound),
+        }
+        e = E({name: val for name, val in samples.values()})
+        listed = set(e.keys)
+        note = " [filter structure not recognised (%s): decided on the truth table of the real filter]" % why[:60]
+        yield "C18", "every-user-entry-is-listed (name without leading __, value neither callable nor bound method)" + note, "plain" in listed
+        yield "C18", "names-added-by-class-creation-are-not-listed (__module__, __dict__, __weakref__, __doc__)" + note, not any(k.startswith("__") and not callable(getattr(e, k, None)) for k in listed) and "__dunder_plain" not in listed
+        yield "C18", "callable-non-method-values-are-not-listed" + note, "fn" not in listed and "__dunder_fn" not in listed
 
     def canaries(self, case, a, out, X):
         if X.symbolic and out.kind == "return" and out.value is not None and getattr(self, "_P", None) is not None:
